@@ -272,7 +272,7 @@ def sweep_from_proto(
         metadata: DeviceParameter | Metadata | None
         if single_sweep.HasField("parameter"):
             metadata = DeviceParameter(
-                path=single_sweep.parameter.path,
+                path=list(single_sweep.parameter.path),
                 idx=(
                     single_sweep.parameter.idx if single_sweep.parameter.HasField("idx") else None
                 ),
@@ -316,9 +316,9 @@ def sweep_from_proto(
             # if points_double is presented, we use this value first.
             points_proto = single_sweep.points
             if points_proto.points_double:
-                points = points_proto.points_double
+                points = list(points_proto.points_double)
             else:
-                points = points_proto.points  # pragma: no cover
+                points = list(points_proto.points)  # pragma: no cover
             if points_proto.HasField('unit'):
                 unit = tunits.Value.from_proto(points_proto.unit)
                 return sweep_transformer(
@@ -373,7 +373,7 @@ def metadata_from_proto(metadata_pb: run_context_pb2.Metadata) -> Metadata:
     device_parameters: list[DeviceParameter] = []
     for param in metadata_pb.device_parameters:
         device_parameters.append(
-            DeviceParameter(path=param.path, idx=param.idx if param.HasField("idx") else None)
+            DeviceParameter(path=list(param.path), idx=param.idx if param.HasField("idx") else None)
         )
     return Metadata(
         device_parameters=device_parameters or None,
